@@ -423,6 +423,41 @@ func init() {
 					}
 					c.Case(0, true, "inserted-as-is")
 				}})
+			// "refused exactly as the constructor refuses it": for every Go argument of the C12 alphabet, every
+			// numeric format and position, FillVariables panics iff the factory panics on the same value in place
+			dargs := append(goIntArgs(), goFloatArgs()...)
+			dargs = append(dargs, goArg{v: true, typ: "bool"}, goArg{v: "0b101", typ: "string"}, goArg{v: "0b2", typ: "string"}, goArg{v: nil, typ: "nil"})
+			dk := []ref.Kind{ref.I1, ref.I2, ref.I4, ref.I8, ref.U1, ref.U2, ref.U4, ref.U8, ref.F4, ref.F8, ref.B, ref.BOOLEAN}
+			sp = append(sp, h.Space{Name: "fill-refuses-exactly-what-the-constructor-refuses", Count: product(len(dargs), len(dk), 3),
+				Describe: func(i uint64) interface{} {
+					d := unrank(i, len(dargs), len(dk), 3)
+					return fmt.Sprintf("%s(%v) into %s position %d: factory vs FillVariables", dargs[d[0]].typ, dargs[d[0]].v, dk[d[1]], d[2])
+				},
+				Run: func(c *h.Ctx, i uint64) {
+					d := unrank(i, len(dargs), len(dk), 3)
+					a, k, pos := dargs[d[0]], dk[d[1]], d[2]
+					var filler interface{} = 1
+					if k == ref.BOOLEAN {
+						filler = true
+					}
+					direct := []interface{}{filler, filler, filler}
+					tmpl := []interface{}{filler, filler, filler}
+					direct[pos], tmpl[pos] = a.v, "v0"
+					itD, panD := tryItem(func() ast.ItemNode { return mkNumeric(k, direct...) })
+					t := mkNumeric(k, tmpl...)
+					itF, panF := tryFill(t, map[string]interface{}{"v0": a.v})
+					c.Ops(3)
+					in := fmt.Sprintf("%s(%v) into %s position %d", a.typ, a.v, k, pos)
+					switch {
+					case (panD == "") != (panF == ""):
+						c.Fail("fill-and-constructor-disagree-on-refusal:"+k.String()+":"+a.typ, in, fmt.Sprintf("factory panic=%q, FillVariables panic=%q", panD, panF))
+					case panD == "":
+						if dd := sameItem(itD, itF); dd != "" {
+							c.Fail("fill-differs-from-direct-construction", in, dd)
+						}
+					}
+					c.Case(0, true, map[bool]string{true: "both-accept", false: "both-refuse"}[panD == ""])
+				}})
 			// messages: fill x wait bit x session in every order, split fills
 			msgT := []*ref.Node{
 				{Kind: ref.U1, Elems: []ref.Elem{{Var: "v0"}, {U: 2}, {Var: "v1"}}},
